@@ -397,6 +397,7 @@ func (e *Effects) implementations(cc *ssa.CallCommon) []*ssa.Function {
 	if !ok {
 		return nil
 	}
+	e.W.SSA()
 	for _, pk := range e.W.All {
 		sp := e.W.ssaPkgs[strings.TrimPrefix(strings.TrimPrefix(pk.PkgPath, modPath), "/")]
 		if sp == nil {
